@@ -257,6 +257,9 @@ def build_stream(r, tier, kinds=ALL_BUILD, styles=("canon", "canon", "shuffle", 
     for k in kinds:
         for cfg in streams.build_cfgs(k, r, tier):
             if cfg.get("_big") and not big: continue
+            # "light": only the packets at the 65536-word limit that are cheap to write (APP and
+            # unknown packets with a long all-zero payload), two buffers each
+            if cfg.get("_big") and big == "light" and (cfg["k"] not in ("app", "unknown") or cfg.get("_size_only")): continue
             style = r.choice(styles)
             ce.append((cfg, gen.render(cfg, r, style), {"style": style}))
     return fidelity.build_requests(ce, tier, r)
@@ -310,16 +313,16 @@ def base_streams_for(pid, r, tier):
     if pid == "C03":
         return build_stream(r, tier, ("sdes",)) + of_kinds(build_stream(r, "quick", ("pb",)), ("sdes",))
     if pid == "C04":
-        return build_stream(r, tier, ("bye", "app")) + of_kinds(build_stream(r, "quick", ("pb",)), ("bye", "app"))
+        return build_stream(r, tier, ("bye", "app"), big="light" if tier == "quick" else True) + of_kinds(build_stream(r, "quick", ("pb",)), ("bye", "app"))
     if pid == "C05":
         return build_stream(r, tier, ("fb",)) + of_kinds(build_stream(r, "quick", ("pb",)), ("tfb", "pfb"))
     if pid == "C17":
         # the two writer helpers the builders are made of are part of what C17 is about: what they
         # write at the position they are given, and that they touch nothing else
         return ([x for x in streams.helper_stream(r, tier) if x[1]["name"] in ("write_padding", "write_header")]
-                + build_stream(r, tier, big=(tier == "thorough")))
+                + build_stream(r, tier, big=(True if tier == "thorough" else "light")))
     if pid in ("C06", "C07", "C16"):
-        return build_stream(r, tier, big=(pid == "C16" or tier == "thorough"))
+        return build_stream(r, tier, big=(True if pid == "C16" or tier == "thorough" else "light"))
     if pid == "C08":
         return streams.midsize_padded(r) + streams.congruent_lengths(r) + streams.length_patterns(r) + report_ext(r, tier) + parse_typed(r, tier) + parse_custom(r, tier, 0.15) + pad_stream(r, "quick") + big_light(r)
     if pid == "C09":
